@@ -1,7 +1,67 @@
-/- placeholder driver for C19: replaced when the model is built -/
+/-
+  Driver for C19: a whole simulator run of the StochasticNetwork model.
+  request : {"stations":[id…], "early":bool, "periods":n,
+             "sessions":[{"id","st0":id|null,"arrival","departure"}],
+             "events":[{"ts","kind":"Plugin"|"Unplug"|"Recompute","sess"}]   (processing order),
+             "full":[[session ids fully charged when post_charging_update runs] per period],
+             "choices":[index into the free list, per random.choice call]}
+  answer  : {"err":null|name, "steps":[{"kind":"ev"|"post","snap":snapshot after the step}], "final":snapshot,
+             "arrivals":[id…], "wf":bool, "horizon":n}
+  The steps executed are exactly `simSteps full 0 n events` folded with `Net.step`.
+-/
 import AcnModel.Wire
-open Lean Acn.Wire
+import AcnModel.Stochastic
+open Lean Acn Acn.Wire Acn.Stoch
 
-def handle (_ : Json) : Except String Json := throw "driver for C19 not built yet"
+def jSnap (p : Snapshot) : Json :=
+  Json.mkObj [
+    ("occ", jList (fun (q : Station × Option Sess) => Json.arr #[jS q.1, jOpt jS q.2]) p.occ),
+    ("waiting", jList jS p.waiting),
+    ("station_of", jList (fun (q : Sess × Option Station) => Json.arr #[jS q.1, jOpt jS q.2]) p.stationOf),
+    ("swaps", jN p.swaps), ("never_charged", jN p.neverCharged), ("early_unplug", jN p.earlyUnplug),
+    ("draws", jN p.draws)]
+
+def parseKind (k : String) : Except String EvKind :=
+  if k == Gen.typePlugin then pure .plugin
+  else if k == Gen.typeUnplug then pure .unplug
+  else if k == Gen.typeRecompute then pure .recompute
+  else throw s!"unknown event kind {k}"
+
+def parseEvent (j : Json) : Except String Event := do
+  pure { ts := ← getInt j "ts", kind := ← parseKind (← getStr j "kind"), sess := ← getStr j "sess" }
+
+def handle (j : Json) : Except String Json := do
+  let stations ← (← getArr j "stations").mapM (fun v => v.getStr?)
+  let early ← getBool j "early"
+  let n ← getNat j "periods"
+  let sj ← getArr j "sessions"
+  let sessions ← sj.mapM (fun v => do
+    pure ({ id := ← getStr v "id", arrival := ← getInt v "arrival", departure := ← getInt v "departure" } : Session))
+  let st0s ← sj.mapM (fun v => do
+    let o ← getOpt v "st0" (fun w => w.getStr?)
+    pure ((← getStr v "id"), o))
+  let events ← (← getArr j "events").mapM parseEvent
+  let fulls ← (← getArr j "full").mapM (fun v => do (← asArr v).mapM (fun w => w.getStr?))
+  let choices ← (← getArr j "choices").mapM (fun v => v.getNat?)
+  let ids := sessions.map (·.id)
+  let st0 : Sess → Option Station := fun x => (st0s.lookup x).join
+  let full : Nat → Sess → Bool := fun t x => (fulls.getD t []).contains x
+  let cs : Nat → Nat := fun k => choices.getD k 0
+  let mut s := Net.init stations early st0
+  let mut outs : Array Json := #[]
+  let mut err : Json := Json.null
+  for st in simSteps full 0 n events do
+    match s.step cs st with
+    | .error e => err := jS e.name; break
+    | .ok s' =>
+      s := s'
+      let tag := match st with
+        | .post _ => "post"
+        | .ev _ => "ev"
+      outs := outs.push (Json.mkObj [("kind", jS tag), ("snap", jSnap (s.snapshot ids))])
+  pure (Json.mkObj [
+    ("err", err), ("steps", Json.arr outs), ("final", jSnap (s.snapshot ids)),
+    ("arrivals", jList jS s.arrivals),
+    ("wf", jB (wellFormedB sessions events)), ("horizon", jN (horizon events))])
 
 def main : IO Unit := runDriver handle
